@@ -99,67 +99,73 @@ Fixpoint first_clean (blocks : list (list nat * list nat)) (tape : list bool) : 
   end.
 
 (* "for node in sorted(current_level)" *)
+(* `visited`: the nodes this call has dealt with (fix of defect D18: a node that was already expanded when the call
+   meets it for the first time -- expanded by an earlier call, or a skip node -- hands on all its successors) *)
 Fixpoint block_level (N : net) (cfg : config) (check_maa opt_src : bool) (size_limit : option nat)
-         (d : sd) (cur : list nat) (next : list nat) (tape : list bool)
-  : sd * result * list nat * list bool :=
+         (d : sd) (cur : list nat) (next : list nat) (tape : list bool) (visited : list nat)
+  : sd * result * list nat * list bool * list nat :=
   match cur with
-  | [] => (d, RUnit, next, tape)
+  | [] => (d, RUnit, next, tape, visited)
   | x :: cur' =>
-      if n_exp (get d x) then block_level N cfg check_maa opt_src size_limit d cur' next tape else
-      if over_limit size_limit d then (d, RBool false, next, tape) else
+      if n_exp (get d x) then
+        (if mem_nat x visited then block_level N cfg check_maa opt_src size_limit d cur' next tape visited
+         else block_level N cfg check_maa opt_src size_limit d cur' (union_nat next (successors d x)) tape (x :: visited))
+      else
+      let visited := x :: visited in
+      if over_limit size_limit d then (d, RBool false, next, tape, visited) else
       let sp := n_space (get d x) in
       let srcs := sources_in_b N sp in
       if negb (match srcs with [] => true | _ => false end) && opt_src then
         let expected := size d + Nat.pow 2 (length srcs) in
-        if Nat.ltb (max_motifs cfg) expected then (d, RRaised ErrMotifLimit, next, tape)
-        else if match size_limit with Some k => Nat.ltb k expected | None => false end then (d, RBool false, next, tape)
+        if Nat.ltb (max_motifs cfg) expected then (d, RRaised ErrMotifLimit, next, tape, visited)
+        else if match size_limit with Some k => Nat.ltb k expected | None => false end then (d, RBool false, next, tape, visited)
         else
           let '(d1, kids) := ensure_children N d x (map (merge sp) (source_valuations (nvars N) srcs)) [] in
           let d2 := set_empty_seeds (clear_cands (upd_node d1 x (fun y => set_exp y true)) x) x in
-          block_level N cfg check_maa opt_src size_limit d2 cur' (union_nat next kids) tape
+          block_level N cfg check_maa opt_src size_limit d2 cur' (union_nat next kids) tape visited
       else
         let '(d1, r, succ0) := node_successors N cfg d x in
         match r with
         | RUnit =>
             let succ := sort_nat succ0 in
             match succ with
-            | [] => block_level N cfg check_maa opt_src size_limit d1 cur' next tape
+            | [] => block_level N cfg check_maa opt_src size_limit d1 cur' next tape visited
             | [s] => if negb check_maa
-                     then block_level N cfg check_maa opt_src size_limit d1 cur' (union_nat next [s]) tape
+                     then block_level N cfg check_maa opt_src size_limit d1 cur' (union_nat next [s]) tape visited
                      else
                        let blocks := sort_blocks (minimal_blocks (group_blocks N d1 x succ)) in
                        let '(clean, tape1) := first_clean blocks tape in
                        match clean with
-                       | Some ns => block_level N cfg check_maa opt_src size_limit (set_empty_seeds d1 x) cur' (union_nat next ns) tape1
-                       | None => block_level N cfg check_maa opt_src size_limit d1 cur' (union_nat next succ) tape1
+                       | Some ns => block_level N cfg check_maa opt_src size_limit (set_empty_seeds d1 x) cur' (union_nat next ns) tape1 visited
+                       | None => block_level N cfg check_maa opt_src size_limit d1 cur' (union_nat next succ) tape1 visited
                        end
             | _ =>
                 let blocks := sort_blocks (minimal_blocks (group_blocks N d1 x succ)) in
                 if negb check_maa
                 then block_level N cfg check_maa opt_src size_limit d1 cur'
-                                 (union_nat next (match blocks with (_, ns) :: _ => ns | [] => [] end)) tape
+                                 (union_nat next (match blocks with (_, ns) :: _ => ns | [] => [] end)) tape visited
                 else
                   let '(clean, tape1) := first_clean blocks tape in
                   match clean with
-                  | Some ns => block_level N cfg check_maa opt_src size_limit (set_empty_seeds d1 x) cur' (union_nat next ns) tape1
-                  | None => block_level N cfg check_maa opt_src size_limit d1 cur' (union_nat next succ) tape1
+                  | Some ns => block_level N cfg check_maa opt_src size_limit (set_empty_seeds d1 x) cur' (union_nat next ns) tape1 visited
+                  | None => block_level N cfg check_maa opt_src size_limit d1 cur' (union_nat next succ) tape1 visited
                   end
             end
-        | _ => (d1, r, next, tape)
+        | _ => (d1, r, next, tape, visited)
         end
   end.
 
 Fixpoint block_loop (fuel : nat) (N : net) (cfg : config) (check_maa opt_src : bool) (size_limit : option nat)
-         (d : sd) (cur : list nat) (tape : list bool) : sd * result :=
+         (d : sd) (cur : list nat) (tape : list bool) (visited : list nat) : sd * result :=
   match fuel with
   | O => (d, RFuel)
   | S f =>
       match cur with
       | [] => (d, RBool true)
       | _ =>
-          let '(d1, r, next, tape1) := block_level N cfg check_maa opt_src size_limit d (sort_nat cur) [] tape in
+          let '(d1, r, next, tape1, visited1) := block_level N cfg check_maa opt_src size_limit d (sort_nat cur) [] tape visited in
           match r with
-          | RUnit => block_loop f N cfg check_maa opt_src size_limit d1 next tape1
+          | RUnit => block_loop f N cfg check_maa opt_src size_limit d1 next tape1 visited1
           | _ => (d1, r)
           end
       end
@@ -167,4 +173,4 @@ Fixpoint block_loop (fuel : nat) (N : net) (cfg : config) (check_maa opt_src : b
 
 Definition expand_block (fuel : nat) (N : net) (cfg : config) (d : sd) (check_maa opt_src : bool)
            (size_limit : option nat) (tape : list bool) : sd * result :=
-  block_loop fuel N cfg check_maa opt_src size_limit d [0] tape.
+  block_loop fuel N cfg check_maa opt_src size_limit d [0] tape [].
